@@ -726,7 +726,7 @@ MANIFEST = {
     "technique": "bounded exhaustive enumeration of (unit kind x unit kind x operator x registry mode x scalar/array x functional/in-place) cells against exact affine/logarithmic maps and the documented result-kind table",
     "text": "Every ordered pair of the 8 temperature-like units (2 absolute, 3 offset, 3 delta) x 5 magnitudes is converted (to/convert/m_as/ito) and inverted in the Fraction registry and compared exactly with "
     "the affine maps read from the definition text; offset<->delta and offset-in-compound conversions must raise DimensionalityError. Every (L,R) unit pair x {+,-,*,/} x {default, autoconvert} x {scalar, "
-    "ndarray} x {functional, in-place} cell must produce exactly the documented unit and value or OffsetUnitCalculusError, and must leave every operand but an in-place target unchanged. Products and quotients of every temperature-like unit with ordinary quantities whose container has one, several or no units, in both orders, same modes and forms. Switching autoconvert_offset_to_baseunit on a LIVE registry: after every sequence of <= 3 settings (the previous mode used before each) 13 conversions and 4 products answer like a fresh registry of the current mode. Scalar partners, "
+    "ndarray} x {functional, in-place} cell must produce exactly the documented unit and value or OffsetUnitCalculusError, and must leave every operand but an in-place target unchanged. Products and quotients of every temperature-like unit with ordinary quantities whose container has one, several or no units, in both orders, same modes and forms. Redefining an offset unit (define() under on_redefinition ignore/warn, Context.redefine, a context in the text) after it was used: the unit, its delta unit, differences and offset+delta follow the new scale and offset, and the old ones return with the context. Switching autoconvert_offset_to_baseunit on a LIVE registry: after every sequence of <= 3 settings (the previous mode used before each) 13 conversions and 4 products answer like a fresh registry of the current mode. Scalar partners, "
     "powers, ordering, log<->linear and log<->log pairs (scalars, and ndarrays through to / ito / convert(inplace=True)), refusal of log arithmetic, and parse_units delta substitution under as_delta/default_as_delta complete the cell space. thorough repeats it on a "
     "generated registry with rational scale/offset units.",
     "note": "Trusted: R1's reading of scale/offset (their standardised values are C20's subject), the result-kind table (DESIGN Appendix B, transcribed from docs and test tables), math.log/exp for the log "
